@@ -241,6 +241,13 @@ class Path:
             return self.obj_truth(v)
         if isinstance(v, SMap):
             raise Unsupported("truth of symbolic map")
+        from . import models as _m
+        if isinstance(v, _m.SymSet):
+            if v.items:
+                return True
+            if not v.parts:
+                return False
+            return z3.Or(*[zint(self.seq_len(p)) > 0 for p in v.parts])
         if isinstance(v, (EnumVal, SEnum, Closure, ClassRef, Builtin, BoundMethod, ModuleRef)):
             return True
         if isinstance(v, Opaque):
@@ -498,6 +505,15 @@ class Path:
             return v
         if isinstance(v, (set, frozenset)):
             return sorted(v, key=repr)
+        from . import models as _m0
+        if isinstance(v, _m0.SymSet):
+            if v.parts or any(is_sym(x) or isinstance(x, SObj) for x in v.items):
+                raise Unsupported("iteration over a set with symbolic members")
+            out = []
+            for x in v.items:
+                if x not in out:
+                    out.append(x)
+            return out
         if isinstance(v, dict):
             return list(v.keys())
         if isinstance(v, SUnion):
@@ -1335,6 +1351,9 @@ class Path:
         cur = self.eval(load)
         rhs = self.eval(st.value)
         from . import models
+        if isinstance(st.op, ast.BitOr) and isinstance(cur, models.SymSet):
+            models.call_method(self, cur, "update", [rhs], {})
+            return
         if isinstance(st.op, ast.Add) and isinstance(cur, list) and not isinstance(cur, tuple):
             # list += iterable mutates in place
             rs = self.to_seq(rhs)
